@@ -1115,6 +1115,10 @@ func (iqr *IQR) MergeIQRStatsResults(iqrs []*IQR) (bool, error) {
 
 	if statsType.IsSegmentStatsCmd() {
 		finalSegStatsMap := segStatsRes.GetSegStats()
+		// Keep the merged stats on this IQR: the next merge starts from them. A column this IQR had no stats for
+		// (it came from a chain whose records were all filtered out) otherwise only lives in the temporary map and
+		// is dropped again by the following merge.
+		iqr.statsResults.segStatsMap = finalSegStatsMap
 		err = iqr.CreateSegmentStatsResults(searchResults, finalSegStatsMap, searchResults.GetAggs().MeasureOperations)
 	} else {
 		err = iqr.CreateGroupByStatsResults(searchResults)
